@@ -251,7 +251,7 @@ def gen_prog(rng, w):
             elif s['req'] or rng.random() < 0.55: vals.append([list(key), rng.randrange(1000)])
             else: vals.append([list(key), None])
         prog.append(['create', e, vals])
-    prog.append(['flush'])
+        prog.append(['flush'])
     for _ in range(rng.choice([0, 1, 2, 3, 5])):
         prog.append(['link', rng.randrange(1000), rng.randrange(1000), rng.randrange(1000)])
     return prog
@@ -529,6 +529,23 @@ def _check_history(ctx, w, schema, prog, plan, state0, report):
     return viol
 
 
+_GUARD = []
+
+
+def guard_present():
+    """which variant of `_delete_` the tree has: does deleting a node that is its own cascade child recurse for ever (current code)
+    or return (tree with the re-entrancy guard of fixes/C15-cascade-cycle-recursion.diff)?  Decided by running it; the whole tie
+    then validates the model variant chosen (`guard` argument of `delete`); the theorems hold for both."""
+    if not _GUARD:
+        wi = W_CYCLE_SELF
+        w, st = build(wi['schema'], wi['prog'])
+        try:
+            steps, _ = run_deletes(w, st, wi['plan'])
+            _GUARD.append(steps[0]['err'] != 'RecursionError')
+        finally: w.db.disconnect()
+    return _GUARD[0]
+
+
 JOBS = []      # (driver request, function evaluating the reply): sent to the Lean driver in ONE batch (flush_jobs)
 
 
@@ -547,7 +564,7 @@ def tie(ctx, w, inp, state0, plan, groups, steps, commit_err, got):
         if rec['missing']: marks.append(None); continue
         marks.append((len(dels), len(grp))); dels += grp
     relkinds = None
-    JOBS.append(({'op': 'run', 'schema': w.model_schema, 'objs': state0, 'deletes': dels},
+    JOBS.append(({'op': 'run', 'schema': w.model_schema, 'objs': state0, 'guard': guard_present(), 'deletes': dels},
                  lambda out: tie_eval(ctx, inp, plan, groups, steps, marks, commit_err, got, out)))
 
 
@@ -839,6 +856,7 @@ def all_orders(ctx, rng, schema, prog):
 
 def run(ctx):
     rng = ctx.rng
+    ctx.extra['delete_variant'] = 're-entrancy guard present' if guard_present() else 'no re-entrancy guard (cascade cycles through collections recurse until RecursionError)'
     linked_tie(ctx)
     witnesses(ctx)
     nhist = ctx.scale(160, 4000)
